@@ -161,7 +161,7 @@ def with_history_invariants(prop, tier, res):
     """E2: the state invariant of `prop` re-checked after every undo / redo of every call
     sequence of the C02 menus (deep undo/redo interleavings that the BFS probe does not reach)"""
     q = tier == "quick"
-    menus = [(M1, 4 if q else 6), (M1B, 4 if q else 5), (M2, 3 if q else 5)]
+    menus = [(M1, 4 if q else 6), (M1B, 4 if q else 5), (M2, 3 if q else 5), (M_DEEP, 7 if q else 9)]
     return merge_results(res, run_e2(prop, tier, "C02", menus, inv_props=(prop,), time_budget=budget(tier, 60, 900)))
 
 
@@ -391,6 +391,14 @@ M2 = dict(name="M2-seg-div", world="seg-2d", seed="div", items=[
     ("del_node", 3),
     UNDO, REDO,
 ])
+# few items, long sequences: B is only legal after A, so replaying the timeline in a wrong order
+# creates a merge (A, B, undo, undo, C, undo, undo needs length 7)
+M_DEEP = dict(name="M-deep-chain", world="noseg-2d", seed="chain", items=[
+    ("del_edge", 2, 3),                  # A
+    ("add_edge", 1, 3, False),           # B: refused while 3 still has parent 2
+    ("set_attr", 1, "score", 2.5),       # C: any accepted edit
+    UNDO, REDO,
+])
 M3 = dict(name="M3-full-chain", world="noseg-2d", seed="chain", full_alphabet=True,
           kinds=("del_node", "del_edge", "add_edge", "add_node", "swap"))
 M3S = dict(name="M3-full-seg-chain", world="seg-2d-core", seed="chain", full_alphabet=True,
@@ -399,7 +407,8 @@ M3S = dict(name="M3-full-seg-chain", world="seg-2d-core", seed="chain", full_alp
 
 def check_c02(tier):
     q = tier == "quick"
-    menus = [(M1, 5 if q else 7), (M1B, 5 if q else 6), (M2, 4 if q else 6), (M3, 2 if q else 3), (M3S, 2)]
+    menus = [(M1, 5 if q else 7), (M1B, 5 if q else 6), (M2, 4 if q else 6), (M3, 2 if q else 3), (M3S, 2),
+             (M_DEEP, 7 if q else 10)]
     return run_e2("C02", tier, "C02", menus, time_budget=budget(tier, 150, 3000),
                   inv_props=("C03", "C04", "C05", "C06"))
 
